@@ -377,6 +377,8 @@ PROP = Prop(
         Leg("point_maps", check_points, strategy=strat_points, examples=EX, n_quick=2500, n_thorough=25000,
             must_hit=["minus&k>=2", "empty_block", "adjacent", "overlap", "nested_overlap", "block_boundary_position", "shifted"],
             rule="random staggered layouts (k<=5/6, empty/adjacent/overlapping blocks, shuffled constructor order, optional 2^31 shift) x both strands; every relative position and every parent position in span+-2"),
+        Leg("point_maps_coverage_guided", check_points, fuzz_of="point_maps", n_quick=300, n_thorough=12000, shards_quick=2, shards_thorough=8,
+            rule="coverage-guided: the `point_maps` leg's strategy driven by atheris/libFuzzer through hypothesis.fuzz_one_input with the `inscripta` package instrumented (fresh empty corpus, budget in runs; same check, clauses and known-finding predicates; failures collected unshrunk)"),
         Leg("rel_interval", check_rel_interval, strategy=strat_rel_interval, examples=EX[:4], n_quick=600, n_thorough=4000,
             must_hit=["subinterval_crosses_boundary", "last_base_of_minus_block", "zero_length_request"],
             rule="every (a,b) with 0<=a<=b<=len x relative strand +/- of random layouts"),
